@@ -155,6 +155,9 @@ func runGossip(seed int64, out string, traces, n, steps int, schedName, store st
 		cn := NewCoreNet(w, CoreOpts{N: nn, Store: store, Cache: cache, Dir: dir})
 		if lossy {
 			cn.mangle = 0.2
+			if t%2 == 1 {
+				cn.EnableReentrant(0.25)
+			}
 		}
 		cn.EmitInit(map[string]interface{}{"sched": sn, "seed": seed*1000 + int64(t), "lossy": lossy, "faults": faults})
 		sc := makeSched(w, sn, nn, steps)
